@@ -127,8 +127,7 @@ func RedactMongoLog(jsonStr string) (*orderedmap.OrderedMap[string, any], error)
 		ns, ok := attr.Get("ns")
 		if ok {
 			if nsStr, ok := ns.(string); ok {
-				redactedNs := HashName(nsStr)
-				attr.Set("ns", redactedNs)
+				attr.Set("ns", hashNamespace(nsStr))
 			}
 		}
 	}
@@ -141,11 +140,24 @@ func redactNamespace(cmd *orderedmap.OrderedMap[string, any]) {
 	for _, field := range searchedFields {
 		if value, ok := cmd.Get(field); ok {
 			if valueStr, ok := value.(string); ok {
-				redactedValue := HashName(valueStr)
-				cmd.Set(field, redactedValue)
+				if field == "ns" {
+					cmd.Set(field, hashNamespace(valueStr))
+				} else {
+					cmd.Set(field, HashName(valueStr))
+				}
 			}
 		}
 	}
+}
+
+// hashNamespace pseudonymises a full namespace "db.coll" as P(db).P(coll), so that it lines up with the
+// pseudonyms of $db and of the collection fields also when the collection starts with '$' (db.$cmd.aggregate).
+func hashNamespace(ns string) string {
+	db, coll, found := strings.Cut(ns, ".")
+	if !found {
+		return HashName(ns)
+	}
+	return HashName(db) + "." + HashName(coll)
 }
 
 // redactNamespaceDocument handles a namespace given as {db: ..., coll: ...} ($merge.into).
